@@ -23,6 +23,42 @@ CHECKS = {
  "C08": dict(level="model_checking", technique="TLA+ spec (States.tla: documented flows + precedence rules) model-checked by TLC; the complete 25x2x23 cell table with every payload variant and all 65536 alerts swept from the crate and judged cell by cell by TLC; flow paths and random walks replayed/validated",
    text="The relation is total and memoryless, so equality on every cell (exhaustive, all payload variants of each kind) implies equality on all finite message sequences; TLC checks the rule invariants (absorbing states, Finished, alert severity, HelloRequest, sender rule, exactly the documented flows) on the specification and judges the swept table and 3000 random sequences.",
    note="Exhaustive over the relation's domain as the property defines it (state, direction, kind, session-id presence, alert severity); payload independence is checked on 2-3 payloads per kind and all 256 alert descriptions. Trusted: TLC, the flows as transcribed from the crate's documentation/comments.", ref="6 (C08)"),
+ "C01": dict(level="exploration", technique="TLA+ spec as input generator and per-input oracle (totality of all decoders checked by TLC on short strings; allocation-hostile corpus); compiled crate observed under catch_unwind, watchdog and a counting allocator; events judged by TLC against Robust.tla",
+   text="Panic-freedom, termination and heap use are facts about the compiled artefact, so the verdict is an observation: 11 M calls (ALL inputs of length <= 2 for every entry point and argument variant; all strings <= 3 over a structural alphabet enumerated by TLC with the specification's answer; allocation-hostile inputs; seeded mutations of TLC-generated valid encodings; defragmenter call sequences) each checked for unwinding, a 5 s watchdog, peak heap <= 1024*len + 64 KiB, Debug formatting. The model contributes the corpus, the oracle and the invariants (Robust.tla, evaluated by TLC on every recorded event).",
+   note="Exploration, not proof: beyond length 2 the inputs are enumerated from the grammar / mutated, not exhaustive. Trusted: the harness's allocator accounting and watchdog.", ref="6 (C01), 11"),
+ "C06": dict(level="model_checking", technique="TLA+ windowed-decoder model (Local / ClassStable theorems checked by TLC on accepted and lying-nested-length structures with suffixes); relational trace validation of recorded (input, input+suffix) runs with pointer-derived slice ranges",
+   text="TLC checks Local and ClassStable on the specification for a pool of structures of 30 self-delimiting parsers x 5 suffixes and every case is replayed; every accepted input of the TLC corpora and a fuzz corpus is re-run by the harness on exactly its consumed bytes and with 4 suffixes in separate buffers, and TLC validates the recorded triples against Robust!LocalPair, RemainderIsSuffix, SlicesInsideConsumed, NoForeignSlice (ranges of every reachable &[u8] are computed from pointers, so a copy or a slice of a foreign region differs even with equal contents).",
+   note="Bounded pools and seeded corpora. Slice provenance of defragmented results is bound in C07. Trusted: TLC, the projection walking every field.", ref="6 (C06)"),
+ "C09": dict(level="model_checking", technique="TLA+ spec of the serializer (Serialize.tla: RFC encoder, Normalize, strict decoders) model-checked by TLC; the crate's emitted bytes judged by TLC's strict decoders (trace validation), parse-back and re-serialization compared",
+   text="TLC checks ParseBack, ReSerializeStable and strictness on ~520 serializable values; the harness (feature serialize) builds the crate's structs from the abstract values, serializes, parses back and re-serializes; TLC judges the produced bytes with the strict decoders (every length field equals the length of what it prefixes; everything consumed) and returns the decoded value, which must equal Normalize(v); unsupported values must give NotYetImplemented.",
+   note="Bounded value domains (incl. 32767 ciphers, 65535-byte extension block). Byte-for-byte equality with the specification's encoding is advisory. Trusted: TLC, harness struct construction.", ref="6 (C09)"),
+ "C10": dict(level="model_checking", technique="TLA+ spec (Dtls.tla) model-checked by TLC; cases replayed on the DTLS parsers",
+   text="TLC checks HeaderExact, CapAlways, IncompleteIff, NeededExact, FragmentRule, BodiesRoundTrip, DatagramRecordByRecord on the specification over a grid of header fields (epochs, 48-bit sequence numbers), every prefix cut, the cap boundary, the fragment grid (length x offset x fragment length), the six supported bodies; ~1150 cases replayed.",
+   note="Bounded grids; trusted: TLC, projection.", ref="6 (C10)"),
+ "C11": dict(level="model_checking", technique="TLA+ Preserved(site) theorem checked by TLC per site; every site swept over its WHOLE field domain on the compiled crate using TLC-emitted templates",
+   text="42 (template, field) sites covering every enumerated non-selector field the property lists; TLC checks Preserved on the specification for all u8 values and a boundary-rich stride of u16 values and emits the templates (cross-checked by three full inputs per site); the harness evaluates all 256 / 65536 values per site (1.25 M calls).",
+   note="Exhaustive per site on the crate; the enclosing templates are fixed. Trusted: TLC, JSON path navigation in the harness.", ref="6 (C11)"),
+ "C12": dict(level="model_checking", technique="TLA+ spec (Ciphers.tla over tables generated mechanically from scripts/tls-ciphersuites.txt and a pinned snapshot); all 65536 ids x 4 routes and ~5400 name queries swept from the crate and judged row by row by TLC",
+   text="TLC checks the table (unique ids/names, pinned rows unaltered, parameters agree with the IANA name tokens, derived sizes) and judges the crate's complete dump: every suite equals its listed row in all 10 columns and 3 derived sizes on all four id routes, presence iff listed, name lookup exact and unique.",
+   note="The name-token rules are my reading of the IANA naming scheme, validated on today's 352 rows; the pinned snapshot is today's file. Trusted: TLC, the mechanical generator (split on ':' and '_').", ref="6 (C12)"),
+ "C13": dict(level="model_checking", technique="TLA+ spec (KeyExchange.tla) model-checked by TLC; cases replayed",
+   text="TLC checks RoundTrip + SelfDelimiting (suffix locality), Truncated, CurveTypeRule (all 256 curve types), SignatureFormIffFlag (both flag values, incl. the same bytes under the other flag) on the specification; ~1100 cases replayed on the real parsers.",
+   note="Bounded field lengths (0/1/255/256/65535). Trusted: TLC, projection.", ref="6 (C13)"),
+ "C14": dict(level="model_checking", technique="TLA+ spec (Sct.tla) model-checked by TLC; cases replayed",
+   text="TLC checks ListRoundTrip, SingleEntryExact, EntryBeyondList, ListBeyondInput, IdIs32 on 109 SCT values, lists of 0..3, lying entry/list lengths and every truncation; 645 cases replayed.",
+   note="Bounded; trusted: TLC, projection.", ref="6 (C14)"),
+ "C15": dict(level="model_checking", technique="TLA+ spec (Hello.tla: accessors, RandTime/RandBytes, cipher lookups over the generated table) checked by TLC; cases replayed through the accessors of constructed and parsed TLS/DTLS hellos",
+   text="TLC checks RandomPartition and LookupOrder and emits expected accessor values for constructed hellos with random lengths {0,3,4,5,31,32,33} x 7 leading words and parsed TLS/DTLS ClientHello / ServerHello values; every accessor, get_ciphers/get_cipher/get_version and the stored fields are compared.",
+   note="91 cases (boundaries + seeded words), not all 2^32 leading words. Trusted: TLC.", ref="6 (C15)"),
+ "C16": dict(level="model_checking", technique="TLA+ loop machine (Iterate) vs many1(complete(single)) model-checked by TLC; cases replayed; alias checked relationally",
+   text="TLC checks EqualsIteration (records, FailsIffFirstFails, RemainderAtFirstFailure) and TlsParserAlias on concatenations of 0..3 TLS / DTLS records with tails (truncated, oversized header, garbage, malformed); 704 cases replayed; tls_parser and parse_tls_plaintext compared on the same inputs.",
+   note="Bounded pools. Trusted: TLC, projection.", ref="6 (C16)"),
+ "C17": dict(level="model_checking", technique="TLA+ registry tables (Registry.tla, transcribed from IANA) ; every integer of every registry newtype's domain swept on the crate and judged by TLC as run-length encoded text classes; constants, conversions, key_bits judged against the tables",
+   text="For all 18 newtypes and every integer of the domain (5 x 65536 + 13 x 256): Display and Debug text class (constant name / numeric fallback containing the value), conversions identity, SignatureScheme split and reserved range, key_bits against admissible sets; all 207 named constants by name.",
+   note="The IANA side is my transcription (no network); the fallback is pinned only as 'contains the decimal value and is not a name'. Trusted: TLC, harness classification (mechanical string tests).", ref="6 (C17)"),
+ "C18": dict(level="other", technique="exhaustive enumeration of the 4 feature sets judged by TLC against FeatureMatrix.tla: cargo build outcomes, result digests of a TLC-generated differential corpus per configuration, unsafe token scan, compile-time Send/Sync assertions",
+   text="Build outcomes, absence of unsafe and auto-traits are facts about cargo and rustc; the model is a four-row table and the check enumerates all four configurations, runs the same corpus (TLC cases of two grammars + a seeded fuzz corpus) under each buildable set and compares digests.",
+   note="Trusted: cargo/rustc; the token scan ignores comments and string literals.", ref="6 (C18), 11"),
 }
 NOT_YET = "check not built yet in this round (the specification does not cover it yet); see DESIGN.md section 10"
 
@@ -30,7 +66,7 @@ def main():
     hooks_commits = subprocess.run(["git", "-C", "/repo", "log", "--format=%h %s"], capture_output=True, text=True).stdout.splitlines()
     hook = [l.split()[0] for l in hooks_commits if "tls_parser_verif" in l]
     m = {"version": 1,
-         "setup_cmd": "cd /verif/harness && cargo build --release --offline 2>&1 | tail -1",
+         "setup_cmd": "bin/setup.sh",
          "hooks": {"guard": "tls_parser_verif",
                    "enable": "rustc --cfg tls_parser_verif, passed only by /verif/harness/.cargo/config.toml (build.rustflags)",
                    "baseline_off_cmd": "cd /repo && cargo test --workspace --no-fail-fast --offline",
